@@ -178,6 +178,8 @@ def execute(scenario, tape):
             rec.tid = sim.current.tid
             st['recs'].append(rec)
             rec.r = w.api(op, fn, *a, **k)
+            rec.pending = rec.pending or getattr(
+                conn, 'new_networking_thread', None) is not None
             return rec
 
         def on_exception(e, info):
@@ -343,10 +345,67 @@ def execute(scenario, tape):
             st['final_rounds'] = rounds + 1
         sim.spawn(coord, 'coord')
 
+    from minecraft.networking.connection import Connection as _C
+
+    def logging_setattr(self, name, value):
+        object.__setattr__(self, name, value)
+        if name in ('reactor', 'socket', 'file_object') and \
+                not w.sim.aborting:
+            w.sim.log('attr-write', name)
+    w.extra = [(_C, '__setattr__', logging_setattr)]
     w.run(build)
     res = common.result_from_world(w)
     check(scenario, w, st, res)
     return res
+
+
+def stale_actions(sim, calls, st):
+    """O7: once another thread has successfully started a new session, a
+    networking thread of an older session must not touch the connection's
+    shared state or the newer session's socket.  Returns a violation or
+    None."""
+    hist = sim.history
+    nets = [t for t in sim.threads if t.kind == 'net']
+    for o in calls:
+        if o.op not in ('connect', 'status') or o.r is None or not o.r.ok \
+                or o.net_thread or o.r.ret is None:
+            continue
+        conns = [d[0] for _s, k, d in o.attempts if k == 'connect']
+        first_conn = min(conns) if conns else None
+        for t in nets:
+            if not (t.started_seq < o.r.inv and
+                    (t.ended_seq is None or t.ended_seq > o.r.ret)):
+                continue
+            for seq, tid, kind, d, vt in hist:
+                if tid != t.tid or seq <= o.r.ret:
+                    continue
+                what = None
+                if kind == 'attr-write':
+                    what = 'wrote ' + d
+                elif kind in ('send', 'shutdown') and first_conn is not None:
+                    idx = d[0] if isinstance(d, tuple) else d
+                    if idx >= first_conn:
+                        what = kind + ' on the newer connection'
+                if what is None:
+                    continue
+                # only while the newer session is still meant to be alive
+                if any(c.op in ('disc', 'disc_imm') and c.r is not None and
+                       o.r.ret < c.r.inv < seq for c in calls):
+                    break
+                # a thread may legitimately act inside an API call it makes
+                # itself (listener/handler reconnect)
+                own = any(c.tid == tid and c.r is not None and
+                          c.r.inv < seq < (c.r.ret or 10**12)
+                          and c.op in ('connect', 'status') for c in calls)
+                if own:
+                    continue
+                failed = any(e[3] == tid and e[0] < seq for e in st['errs'])
+                path = 'exception-path' if failed else 'reaction'
+                return ('C16/stale-thread-action:%s' % path,
+                        {'thread': t.name, 'what': what, 'seq': seq,
+                         'new_session_call': o.op,
+                         'new_session_returned': o.r.ret})
+    return None
 
 
 def check(scenario, w, st, res):
@@ -366,6 +425,21 @@ def check(scenario, w, st, res):
     res.nontrivial = len(recs) > 1
     res.state_sigs = [tuple((r.op, 'ok' if r.r is None or r.r.ok
                              else type(r.r.exc).__name__) for r in recs)[:8]]
+    hist = sim.history
+    calls = [r for r in recs if r.r is not None]
+    # which TCP attempts each call made (events by the calling thread inside
+    # the call window)
+    for r in calls:
+        r.attempts = [(seq, kind, d) for seq, tid, kind, d, vt in hist
+                      if tid == r.tid and r.r.inv < seq <
+                      (r.r.ret or 10**12) and
+                      kind in ('connect', 'connect-refused')]
+    # ---- O7 first: everything downstream of a stale action is a symptom
+    ob()
+    sa = stale_actions(sim, calls, st)
+    if sa is not None:
+        V[:] = [sa]
+        return
     ob()
     if sim.end_state != 'done':
         if sim.fail_fast:
@@ -376,16 +450,6 @@ def check(scenario, w, st, res):
     for t in sim.threads:
         if t.kind == 'user' and t.exc is not None:
             raise common.HarnessError('user thread raised %r' % (t.exc,))
-    hist = sim.history
-    calls = [r for r in recs if r.r is not None]
-    refused_attempts = set(scenario['net']['refuse'])
-    # which TCP attempts each call made (events by the calling thread inside
-    # the call window)
-    for r in calls:
-        r.attempts = [(seq, kind, d) for seq, tid, kind, d, vt in hist
-                      if tid == r.tid and r.r.inv < seq <
-                      (r.r.ret or 10**12) and
-                      kind in ('connect', 'connect-refused')]
     # ---- O1: what calls may raise
     for r in calls:
         ob()
